@@ -3,6 +3,6 @@
 cd /verif
 for p in "$@"; do for n in 1 2; do d=seeded/$p-$((n+6)); mkdir -p $d; cp /tmp/seed/$p/out4/$n/* $d/; python3 - <<PY
 import json
-m=json.load(open('$d/meta.json')); m['wave']=4; json.dump(m,open('$d/meta.json','w'),indent=1)
+m=json.load(open('$d/meta.json')); m['wave']=int('${WAVE:-4}'); json.dump(m,open('$d/meta.json','w'),indent=1)
 PY
 done; done
